@@ -663,6 +663,141 @@ func recordC01(env *Env) {
 		}
 		env.emit(ev)
 	}
+	// (a) a record far larger than the read buffer (several MiB: an assembled chromosome, a long read) between ordinary
+	// records, and (b) a file of 10^5 annotated records whose headers are parsed by several workers at once: every
+	// record must come back with its own identifier, annotation and nucleotides, in file order.
+	for _, job := range []string{"giant/fasta", "giant/fastq", "many/fasta", "many/fastq"} {
+		format := job[strings.Index(job, "/")+1:]
+		var sb bytes.Buffer
+		type exp struct {
+			id  string
+			k   int
+			sum uint64
+			n   int
+		}
+		var want []exp
+		put := func(i, n int) {
+			seq := make([]byte, n)
+			x := uint64(i)*2654435761 + 12345
+			var sum uint64
+			for j := range seq {
+				x = x*6364136223846793005 + 1442695040888963407
+				seq[j] = "acgt"[x>>62]
+				sum = sum*31 + uint64(seq[j])
+			}
+			id := fmt.Sprintf("r%06d", i)
+			if format == "fasta" {
+				fmt.Fprintf(&sb, ">%s {\"k\":%d,\"src\":\"verif\"}\n%s\n", id, i, seq)
+			} else {
+				q := bytes.Repeat([]byte{'I'}, n)
+				fmt.Fprintf(&sb, "@%s {\"k\":%d,\"src\":\"verif\"}\n%s\n+\n%s\n", id, i, seq, q)
+			}
+			want = append(want, exp{id, i, sum, n})
+		}
+		nreads := 2
+		if strings.HasPrefix(job, "giant") {
+			for i := 0; i < 60; i++ {
+				n := 80 + i
+				if i == 25 {
+					n = 3*1024*1024 + 4321
+					if format == "fastq" {
+						n = 2*1024*1024 + 77777
+					}
+				}
+				put(i, n)
+			}
+			nreads = 3
+		} else {
+			for i := 0; i < env.optInt("manyrecords", 120000); i++ {
+				put(i, 30+i%20)
+			}
+		}
+		data := sb.Bytes()
+		ev := c01Event{Op: "features", Fmt: format, Via: job, Workers: 8, Size: len(data), Cls: job, Target: []int{0, 0},
+			Recs: []int{}, Cuts: [][]int{}, Orders: []int{}, Got: []int{}, Serials: []int{}}
+		for rep := 0; rep < nreads && ev.Status == 0; rep++ {
+			workers := []int{8, 3, 2}[rep%3]
+			var it obiiter.IBioSequence
+			var err error
+			st := guardedFor(180*time.Second, func() {
+				if format == "fasta" {
+					it, err = obiformats.ReadFasta(bytes.NewReader(data), obiformats.OptionsParallelWorkers(workers))
+				} else {
+					it, err = obiformats.ReadFastq(bytes.NewReader(data), obiformats.OptionsParallelWorkers(workers))
+				}
+			})
+			if st != "" || err != nil {
+				ev.Op, ev.Status, ev.Why = "read", 1, fmt.Sprint(job, ": ", st, err, fatalMessages())
+				break
+			}
+			type got struct {
+				o  int
+				rs []exp
+			}
+			var bs []got
+			done := make(chan string, 1)
+			go func() {
+				defer func() {
+					if r := recover(); r != nil {
+						done <- fmt.Sprint("panic: ", r)
+					}
+				}()
+				for it.Next() {
+					b := it.Get()
+					g := got{o: b.Order()}
+					for _, s := range b.Slice() {
+						var sum uint64
+						for _, c := range s.Sequence() {
+							sum = sum*31 + uint64(c)
+						}
+						k, _ := s.GetIntAttribute("k")
+						g.rs = append(g.rs, exp{s.Id(), k, sum, s.Len()})
+					}
+					bs = append(bs, g)
+				}
+				done <- ""
+			}()
+			select {
+			case st = <-done:
+			case <-time.After(180 * time.Second):
+				st = "timeout"
+			}
+			if st != "" {
+				ev.Op, ev.Status, ev.Why = "read", 1, fmt.Sprintf("%s (%d bytes, %d workers): %s %v", job, len(data), workers, st, fatalMessages())
+				if st == "timeout" {
+					ev.Status = 2
+				}
+				break
+			}
+			sort.SliceStable(bs, func(i, j int) bool { return bs[i].o < bs[j].o })
+			var all []exp
+			for _, g := range bs {
+				all = append(all, g.rs...)
+			}
+			nbad, first := 0, ""
+			for i := 0; i < len(all) || i < len(want); i++ {
+				if i >= len(all) || i >= len(want) || all[i] != want[i] {
+					nbad++
+					if first == "" {
+						var g, w any = "nothing", "nothing"
+						if i < len(all) {
+							g = all[i]
+						}
+						if i < len(want) {
+							w = want[i]
+						}
+						first = fmt.Sprintf("record %d is (id, k, checksum, length) %v, expected %v", i, g, w)
+					}
+				}
+			}
+			if nbad > 0 {
+				ev.Op, ev.Status = "read", 1
+				ev.Why = fmt.Sprintf("%s: %d-byte %s text of %d records read with %d parsing workers: %d records delivered, %d positions differ from the text; %s",
+					job, len(data), format, len(want), workers, len(all), nbad, first)
+			}
+		}
+		env.emit(ev)
+	}
 	dir := env.opt("dir", c01Tmp)
 	os.MkdirAll(dir, 0o755)
 	seeds := make([]int64, len(plans))
